@@ -15,7 +15,7 @@ import (
 
 func tightDefault(wr *Writer, data any, _ int) {
 	switch {
-	case !wr.NoReflect:
+	case !wr.NoReflect || 0 < len(wr.CreateKey):
 		rv := reflect.ValueOf(data)
 		kind := rv.Kind()
 		if kind == reflect.Ptr {
